@@ -182,6 +182,43 @@ def jws_part(ctx):
             c.note = "suitable" if wantv else "unsuitable"
             c.expect = expect
             _batch.append(c)
+    # the full cross of entry point x key restriction with the algorithm's own key: each serialization (and each RFC 7797
+    # branch) has its own copy of the use / key_ops / key-type calls, so each is exercised with each restriction
+    for alg in (J.ALL_ALGS if ctx.tier != "quick" else rng.sample(J.ALL_ALGS, 4)):
+        good = J.ALG_KEYS[alg][0]
+        priv_native = J.native_priv(good)
+        for kind in S.KINDS:
+            for params, private in KEY_VARIANTS:
+                try:
+                    key = K.key(good, private=private, **params)
+                except Exception:  # noqa: BLE001
+                    continue
+                f = key_facts(good, params, private)
+                prot = {"alg": alg}
+                if kind in ("c7797", "j7797"):
+                    prot.update({"b64": False, "crit": ["b64"]})
+                try:
+                    S.impl_sign(kind, prot, None, b"payload", key, {"algorithms": J.ALL_ALGS})
+                    out = "ok"
+                except Exception as e:  # noqa: BLE001
+                    out = err_name(e)
+                ctx.count("jws-sign-cross", (alg, kind, repr(params), private), True, "ok" if out == "ok" else "refused")
+                if (out == "ok") != suitable_jws(alg, f, sign=True):
+                    ctx.report(f"signing with {alg} ({kind}) and the algorithm's own key restricted to {params or 'nothing'} "
+                               f"({'private' if private else 'public'}): {out}", {"alg": alg, "kind": kind, **describe(good, params, private)},
+                               f"jws-sign-cross:{kind}:{'unsuitable-used' if out == 'ok' else 'suitable-refused'}")
+                c = J.build_valid(rng, alg, good, priv_native, kind, b"payload")
+                c.key = key
+                wantv = suitable_jws(alg, f, sign=False)
+
+                def expect(case, impl, wantv=wantv, alg=alg, params=params, kind=kind):
+                    if (impl[0] == "ok") != wantv:
+                        return (f"verification with {alg} ({kind}) and the right key restricted to {params or 'nothing'}: "
+                                f"{'accepted' if impl[0] == 'ok' else impl[1]}")
+                    return None
+                c.note = ("suitable" if wantv else "unsuitable") + "-cross"
+                c.expect = expect
+                _batch.append(c)
     J.run_verify_cases(ctx, "jws-verify", _batch, check_c01=True, prop="C06")
 
 
